@@ -94,6 +94,42 @@ Proof.
     + cbn [s_p]. now rewrite (src_view q1 _ _ _ V1), (src_view q _ _ _ V).
 Qed.
 
+(** the same without any assumption on the other flag: the ingress handler runs first; the packet
+    it hands over is the packet of the path with the other flag bit as the sender set it *)
+Theorem ingress_flag_answer_any q k r a e :
+  View q k k false -> (k < n)%nat -> (1 <= k)%nat -> crosses p (k - 1) = true ->
+  in_flag k a e = true ->
+  process_scion (macq (a_key (asof k))) (cfg_of (asof k) r) now (InExt (tr_in p k))
+                (ScmpReturn.set_alerts k a e q) =
+  SlowPath SpAlertIngress 0
+           (ScmpReturn.set_alerts k (if cons p k then false else a) (if cons p k then e else false)
+                                  (render p pp k true)).
+Proof.
+  intros V Hk K1 Cp Fi.
+  assert (Ha : arrives k (InExt (tr_in p k))) by (right; auto).
+  destruct (ingress_arrive mac t now p pp HG Hep Hexp n nsegs q k (InExt (tr_in p k)) r V Hk Hk
+              (js_lt p Hs k Hk) Ha) as (q1 & Ein & V1 & _).
+  pose proof (view_full p pp Hs q1 k true V1) as Eq1.
+  apply ingress_pre_of_part in Ein.
+  rewrite <- (phi_flag k a e q).
+  set (s1 := mkSt q1 (rhop (hop p k)) (rinfo p k true (js k)) (peerhop p k) false 0) in *.
+  rewrite (proc_ingress_answer _ _ now _ k a e (p_src_ia q) (keeps_gflag k a e) q s1
+             (SlowPath SpAlertIngress 0
+                (ScmpReturn.set_alerts k (if cons p k then false else a) (if cons p k then e else false) q1))
+             (src_ok_view q k k false r _ V Hk) Ein).
+  - now rewrite Eq1.
+  - pose proof (ingress_answer_any (InExt (tr_in p k)) k a e (p_src_ia q) s1 (rhop (hop p k))) as IA.
+    cbn [s1 s_p s_inf s_eg] in IA. rewrite (rinfo_consdir p k k true) in IA. apply IA.
+    + pose proof (arrives_from0 mac t now p pp HG Hep Hexp k _ Hk Ha) as F0. rewrite F0.
+      apply Nat.eqb_neq. lia.
+    + rewrite (v_ch _ _ _ _ _ _ _ _ V1). apply Nat2N.id.
+    + exact Fi.
+    + reflexivity.
+    + apply plain_rhop.
+    + apply (v_hops _ _ _ _ _ _ _ _ V1); assumption.
+    + now rewrite (src_view q1 _ _ _ V1), (src_view q _ _ _ V).
+Qed.
+
 (** the state after the egress lookup of a healthy router *)
 Definition eg_state (kc : nat) (xo : bool) : st :=
   mkSt (render p pp kc true) (rhop (hop p kc)) (rinfo p kc true (js kc)) (peerhop p kc) xo (tr_eg p kc).
